@@ -111,6 +111,19 @@ pub uninterp spec fn fminf(a: f64, b: f64) -> f64;
 pub uninterp spec fn fabsf(a: f64) -> f64;
 pub uninterp spec fn fisnan(a: f64) -> bool;
 pub uninterp spec fn fisfinite(a: f64) -> bool;
+pub uninterp spec fn fisinfinite(a: f64) -> bool;
+// IEEE classification facts (discharged for ALL f64 / all pairs by the loop-free Kani harness
+// `ieee_classification`): finite <=> neither NaN nor infinite; NaN and infinite exclude each other;
+// a pair is unordered exactly when one side is NaN; 0.0 is finite.
+pub axiom fn ax_ieee_class()
+    ensures
+        forall|a: f64| #[trigger] fisfinite(a) == (!fisnan(a) && !fisinfinite(a)),
+        forall|a: f64| #[trigger] fisnan(a) ==> !fisinfinite(a),
+        forall|a: f64, b: f64| (#[trigger] fcmp(a, b) is None) == (fisnan(a) || fisnan(b)),
+        fisfinite(0.0f64),
+        // (core::cmp::Ordering has exactly three variants: the Rust enum, opaque to this Verus)
+        forall|a: f64, b: f64| #[trigger] fcmp(a, b) is None || fcmp(a, b) == Some(core::cmp::Ordering::Less)
+            || fcmp(a, b) == Some(core::cmp::Ordering::Equal) || fcmp(a, b) == Some(core::cmp::Ordering::Greater);
 pub uninterp spec fn fpowf(a: f64, b: f64) -> f64;
 pub uninterp spec fn ftotalcmp(a: f64, b: f64) -> core::cmp::Ordering;
 pub assume_specification [f64::max] (a: f64, b: f64) -> (r: f64) ensures r == fmaxf(a, b);
@@ -118,6 +131,7 @@ pub assume_specification [f64::min] (a: f64, b: f64) -> (r: f64) ensures r == fm
 pub assume_specification [f64::abs] (a: f64) -> (r: f64) ensures r == fabsf(a);
 pub assume_specification [f64::is_nan] (a: f64) -> (r: bool) ensures r == fisnan(a);
 pub assume_specification [f64::is_finite] (a: f64) -> (r: bool) ensures r == fisfinite(a);
+pub assume_specification [f64::is_infinite] (a: f64) -> (r: bool) ensures r == fisinfinite(a);
 pub assume_specification [f64::powf] (a: f64, b: f64) -> (r: f64) ensures r == fpowf(a, b);
 pub assume_specification [f64::total_cmp] (a: &f64, b: &f64) -> (r: core::cmp::Ordering) ensures r == ftotalcmp(*a, *b);
 
